@@ -60,5 +60,6 @@ MaxDominatesOnlyInit ==
   /\ bufs = Gen(3)
   /\ sel \in A!Tasks /\ active \in SUBSET A!Tasks /\ sampledTask \in A!Tasks \cup {-1}
   /\ cnt \in Nat /\ last \in A!LastNames
-  /\ TypeOnly /\ A!MaxDominates
+  /\ TypeOnly
+  /\ \A t \in A!Tasks : \A i \in 1..CN : i <= bufs[t].len => bufs[t].prio[i] <= bufs[t].maxPrio   \* = A!MaxDominates
 =============================================================================
